@@ -113,6 +113,93 @@ def inline_call(fd, bb, gd):
                                  "rv": {"r": "use", "op": copy.deepcopy(a)}, "span": t["span"]})
     blk["term"] = {"t": "goto", "target": nb, "span": t["span"]}
     fd["blocks"].extend(g["blocks"])
+    _thread_error_returns(fd, nb, off, dest, target)
+
+
+def _succs_of(term):
+    k = term["t"]
+    if k == "goto":
+        return [term["target"]]
+    if k == "switch":
+        return [b for _, b in term["arms"]] + [term["otherwise"]]
+    if k in ("call", "drop", "assert"):
+        return [term["target"]] if term.get("target") is not None else []
+    return []
+
+
+def _retarget(term, mapping):
+    k = term["t"]
+    if k == "goto":
+        term["target"] = mapping.get(term["target"], term["target"])
+    elif k == "switch":
+        term["arms"] = [[v, mapping.get(b, b)] for v, b in term["arms"]]
+        term["otherwise"] = mapping.get(term["otherwise"], term["otherwise"])
+    elif k in ("call", "drop", "assert"):
+        if term.get("target") is not None:
+            term["target"] = mapping.get(term["target"], term["target"])
+
+
+def _thread_error_returns(fd, nb, off, dest, target):
+    """If the caller immediately applies `?` to the inlined call's result, send the callee's error
+    returns straight to the caller's error arm: otherwise the joined CFG contains the infeasible
+    path 'callee failed -> caller continues on its Ok arm'."""
+    if target is None or dest["proj"]:
+        return
+    tb = fd["blocks"][target]
+    tt = tb["term"]
+    if tb["stmts"] or tt["t"] != "call" or not (tt.get("callee") or "").endswith("Try>::branch") and "Try>::branch" not in (tt.get("resolved") or tt.get("callee") or ""):
+        return
+    a0 = tt["args"][0] if tt["args"] else None
+    if not a0 or a0["k"] not in ("move", "copy") or a0["place"]["local"] != dest["local"] or a0["place"]["proj"]:
+        return
+    t2 = tt.get("target")
+    if t2 is None:
+        return
+    sw = fd["blocks"][t2]["term"]
+    if sw["t"] != "switch":
+        return
+    arms = {int(v): b for v, b in sw["arms"]}
+    if 1 not in arms:
+        return
+    err_bb = arms[1]
+    end = len(fd["blocks"])
+    starts = []
+    for j in range(nb, end):
+        b = fd["blocks"][j]
+        if b["cleanup"]:
+            continue
+        is_err_stmt = any(st["s"] == "assign" and st["place"]["local"] == off and not st["place"]["proj"] and st["rv"]["r"] == "aggregate" and st["rv"].get("variant") == "Err" for st in b["stmts"])
+        tj = b["term"]
+        is_err_call = tj["t"] == "call" and not tj["dest"]["proj"] and tj["dest"]["local"] == off and "from_residual" in (tj.get("callee") or "")
+        if is_err_stmt or is_err_call:
+            starts.append(j)
+    for j in starts:
+        b = fd["blocks"][j]
+        # clone everything reachable from j's successors inside the inlined region
+        region = []
+        st = [x for x in _succs_of(b["term"]) if nb <= x < end]
+        seen = set()
+        while st:
+            x = st.pop()
+            if x in seen or not (nb <= x < end):
+                continue
+            seen.add(x)
+            region.append(x)
+            st.extend(_succs_of(fd["blocks"][x]["term"]))
+        if len(region) > 40:
+            continue
+        mapping = {}
+        for x in region:
+            mapping[x] = len(fd["blocks"])
+            fd["blocks"].append(copy.deepcopy(fd["blocks"][x]))
+        for x in region:
+            cb = fd["blocks"][mapping[x]]
+            _retarget(cb["term"], mapping)
+            if cb["term"]["t"] == "goto" and cb["term"]["target"] == target:
+                cb["term"]["target"] = err_bb
+        _retarget(b["term"], mapping)
+        if b["term"]["t"] == "goto" and b["term"]["target"] == target:
+            b["term"]["target"] = err_bb
 
 
 def inline_new_helpers(bodies, known):
